@@ -1,11 +1,12 @@
 """C18 - time-series files round-trip and all file formats parse to the same panel."""
+import json
 import os
 
 from harness.core import cbool, clist, copt, cstr, cz
 
 ID = "C18"
 MODEL_TARGETS = ["C18/Cases.vo"]
-PROOF_TARGETS = ["C18/Gen.vo", "C18/Bridge.vo", "C18/Proofs.vo"]
+PROOF_TARGETS = ["C18/Gen.vo", "C18/Bridge.vo", "C18/Proofs.vo", "C18/History.vo"]
 OBLIGATION_FILES = ["C18/Bridge.v"]
 PROPS_FILE = "C18/Props.v"
 SHARD = 40
@@ -21,7 +22,14 @@ RULE = ("roundtrip: random univariate equal-length panels (1-6 instances, length
         "unequal length, ...), model verdict vs loader verdict.  file: every bundled .ts/.arff/.tsv "
         "file, header + first/last instances, model vs loader.  formats: every bundled dataset with "
         ">= 2 formats, all instances compared in Python, excerpts inside Coq.  split: every "
-        "load_<dataset>, 3 splits x 2 return forms.  non-trivial = accepted file with >= 2 instances "
+        "load_<dataset>, 3 splits x 2 return forms.  history: per loader 2-6 HISTORIES of 2-4 loader "
+        "calls on the same dataset inside one process (split in None/train/test, both return forms, "
+        "60% repeating the previous split), with in-place edits of an earlier result by the caller in "
+        "between (drop first row, overwrite first label, replace / edit in place the first nested "
+        "series, add a column); the pattern load(train) ; load(train, return_X_y=True) for every "
+        "loader; every call compared with the same call made FIRST in a fresh process, with the pure "
+        "function of the two files, and the caller's objects re-read at the end.  Every bundled-data "
+        "case runs in a forked copy of a driver process that never called a loader.  non-trivial = accepted file with >= 2 instances "
         "(or a rejection for ts_lines); distinct = distinct canonical JSON case")
 TRUSTED = [
     "translator/tsformat.py (Python ast -> site facts: writer header items, parser startswith chain, "
@@ -43,6 +51,10 @@ MODELLED = [
     "answers Err and no such case is generated (bundled BasicMotions.arff is compared in Python only)",
     "pd.DataFrame / pd.concat assembly in _load_dataset: rows = list, concat = append (tied by the "
     "split cases on every bundled dataset)",
+    "Python object identity / aliasing in the history model: the objects a caller holds are a list of "
+    "values, a load appends a freshly computed value, an edit rewrites one position (that the real "
+    "loader shares nothing between results is what the history cases sample; the source-side tie is "
+    "the pinned body of _load_dataset plus `no decorator, no global statement` on the loaders)",
     "precision clause ('values equal to the precision the writer prints') is checked by the Python "
     "oracle only: |float(printed token) - original| <= half a unit of the last printed digit",
 ]
@@ -283,6 +295,64 @@ def bundled_files(repo=None):
     return out
 
 
+MUTATIONS = ["drop_first", "set_label", "set_cell", "edit_cell_inplace", "add_column"]
+SLOW_LOADERS = ("load_japanese_vowels",)
+HIST_K = 5
+
+
+def _ld(split, xy):
+    return {"op": "load", "split": split, "xy": bool(xy)}
+
+
+def _mu(target, how):
+    return {"op": "mutate", "target": target, "how": how}
+
+
+def _fixed_histories():
+    return [
+        # the single-frame form of a named split, then the (X, y) form of the same split
+        [_ld("train", False), _ld("train", True)],
+        [_ld("test", True), _ld("test", False), _ld(None, True)],
+        [_ld("test", False), _ld("test", True), _ld(None, True), _ld(None, False)],
+        # the caller edits what it was given; the next call must not see it
+        [_ld("train", True), _mu(0, "edit_cell_inplace"), _ld("train", True), _ld(None, False)],
+        [_ld("train", True), _mu(0, "set_label"), _mu(0, "drop_first"), _ld("train", True)],
+        [_ld(None, False), _mu(0, "set_label"), _ld(None, True), _ld(None, False)],
+        [_ld("test", False), _mu(0, "add_column"), _ld("test", False), _ld("test", True)],
+        [_ld(None, True), _mu(0, "set_cell"), _ld("train", True), _ld(None, True)],
+        # different splits of one dataset one after the other
+        [_ld("train", True), _ld("test", True), _ld(None, True)],
+        [_ld(None, True), _ld("test", True), _ld("train", False)],
+    ]
+
+
+def _rand_history(rng):
+    ops, nload = [], rng.randint(2, 4)
+    prev = rng.choice([None, "train", "test"])
+    for k in range(nload):
+        split = prev if rng.random() < 0.6 else rng.choice([None, "train", "test"])
+        prev = split
+        ops.append(_ld(split, rng.random() < 0.5))
+        if k < nload - 1 and rng.random() < 0.5:
+            tgt = k if rng.random() < 0.7 else rng.randrange(k + 1)
+            tsplit = [o for o in ops if o["op"] == "load"][tgt]["split"]
+            hows = [h for h in MUTATIONS if not (h == "drop_first" and tsplit is None)]
+            ops.append(_mu(tgt, rng.choice(hows)))
+    return ops
+
+
+def _gen_histories(rng, tier):
+    out = []
+    fixed = _fixed_histories()
+    for fn in LOADERS:
+        slow = fn in SLOW_LOADERS
+        nfix, nrand = (1, 1) if slow else ((2, 3) if tier == "quick" else (len(fixed) - 1, 12))
+        hs = [fixed[0]] + rng.sample(fixed[1:], nfix) + [_rand_history(rng) for _ in range(nrand)]
+        for ops in hs:
+            out.append({"kind": "history", "loader": fn, "ops": ops})
+    return out
+
+
 def gen_cases(rng, tier):
     cases = []
     for _ in range(170 if tier == "quick" else 5000):
@@ -326,8 +396,10 @@ def gen_cases(rng, tier):
             heavy.append({"kind": "formats", "dataset": d, "fmts": sorted(names[d])})
     for fn in LOADERS:
         heavy.append({"kind": "split", "loader": fn})
+    heavy += _gen_histories(rng, tier)
     # the bundled-data cases are the expensive ones inside Coq: spread them over the shards
-    heavy.sort(key=lambda c: (c.get("file") or c.get("loader") or c["dataset"])[::-1])
+    heavy.sort(key=lambda c: ((c.get("file") or c.get("loader") or c["dataset"])[::-1],
+                              json.dumps(c, sort_keys=True)))
     step = max(1, len(cases) // (len(heavy) + 1))
     out = []
     for i, c in enumerate(cases):
@@ -351,7 +423,15 @@ def driver_init():
     _TMP = tempfile.mkdtemp(prefix="c18_")
     import atexit
     import shutil
-    atexit.register(lambda: shutil.rmtree(_TMP, ignore_errors=True))
+    pid = os.getpid()
+    atexit.register(lambda: os.getpid() == pid and shutil.rmtree(_TMP, ignore_errors=True))
+    # everything a bundled-data case needs is imported here, and NO loader is called: those cases
+    # run in forked copies of this process (see run_impl)
+    import hashlib  # noqa: F401
+    import numpy  # noqa: F401
+    import pandas  # noqa: F401
+    from sktime.datasets import base  # noqa: F401
+    from sktime.utils import data_io  # noqa: F401
 
 
 def _tmp():
@@ -466,7 +546,181 @@ def _ulp10(v):
     return 10.0 ** Decimal(repr(float(v))).as_tuple().exponent
 
 
+FORKED_KINDS = ("file", "formats", "split", "history")
+
+
+def forked(fn, *args):
+    """fn(*args) in a forked child; the JSON-able result comes back through a pipe.  The parent never
+    calls a dataset loader, so every forked run starts from the state of a fresh process: whatever
+    history of calls a case needs is inside the case, and a failing case fails alone in a replay."""
+    import signal
+    r, w = os.pipe()
+    pid = os.fork()
+    if pid == 0:
+        try:
+            os.close(r)
+            try:
+                payload = {"ok": fn(*args)}
+            except BaseException:
+                import traceback
+                payload = {"exc": traceback.format_exc()[-1500:]}
+            with os.fdopen(w, "w") as f:
+                json.dump(payload, f, default=str)
+        finally:
+            os._exit(0)
+    os.close(w)
+    try:
+        with os.fdopen(r) as f:
+            data = f.read()
+    finally:
+        try:
+            os.kill(pid, signal.SIGKILL)
+        except OSError:
+            pass
+        os.waitpid(pid, 0)
+    if not data:
+        raise RuntimeError("forked case died without a result")
+    payload = json.loads(data)
+    if "exc" in payload:
+        raise RuntimeError(payload["exc"])
+    return payload["ok"]
+
+
 def run_impl(case):
+    _tmp()
+    if case["kind"] == "history":
+        return _run_history_case(case)
+    if case["kind"] in FORKED_KINDS:
+        return forked(_run_impl, case)
+    return _run_impl(case)
+
+
+# ---- histories of loader calls ----------------------------------------------------------------
+
+def _cell_fp(v):
+    import hashlib
+    import numpy as np
+    if hasattr(v, "values"):
+        return hashlib.sha1(np.asarray(v.values, dtype="float64").tobytes()).hexdigest()[:6]
+    return "!" + hashlib.sha1(repr(v).encode()).hexdigest()[:5]       # not a nested series
+
+
+def _dump(res):
+    """canonical form of what a loader call returned: per-cell fingerprints of the feature columns,
+    labels, column names, index, return form"""
+    if isinstance(res, tuple):
+        X, y = res
+        form, labels, cols = "xy", [str(v) for v in y], [str(c) for c in X.columns]
+        feat = list(range(X.shape[1]))
+    else:
+        X, form = res, "frame"
+        cols = [str(c) for c in X.columns]
+        feat = [j for j, c in enumerate(cols) if c != "class_val"]
+        labels = [str(v) for v in X["class_val"]] if "class_val" in cols else None
+    arr = X.to_numpy()
+    return {"form": form, "columns": cols, "index": [str(i) for i in X.index],
+            "rows": [[_cell_fp(arr[i, j]) for j in feat] for i in range(arr.shape[0])],
+            "y": labels}
+
+
+def _apply_edit(obj, how):
+    """the caller edits, in place, an object a loader call handed to it; returns the parameters the
+    model needs (what was written)"""
+    import pandas as pd
+    X = obj[0] if isinstance(obj, tuple) else obj
+    if how == "drop_first":
+        X.drop(X.index[0], inplace=True)
+        return {}
+    if how == "set_label":
+        if isinstance(obj, tuple):
+            y = obj[1]
+            if isinstance(y, pd.Series):
+                y.iloc[0] = "zz"
+                return {"label": str(y.iloc[0])}
+            y[0] = "zz"
+            return {"label": str(y[0])}
+        j = list(X.columns).index("class_val")
+        X.iloc[0, j] = "zz"
+        return {"label": str(X.iloc[0, j])}
+    if how == "set_cell":
+        X.iat[0, 0] = pd.Series([1.0, 2.0, 3.0])
+        return {"cell": _cell_fp(X.iat[0, 0])}
+    if how == "edit_cell_inplace":
+        X.iat[0, 0].iloc[0] = 12345.678
+        return {"cell": _cell_fp(X.iat[0, 0])}
+    if how == "add_column":
+        X["extra"] = [pd.Series([0.5, 1.5]) for _ in range(len(X))]
+        return {"cell": _cell_fp(X["extra"].iloc[0])}
+    raise AssertionError(how)
+
+
+def _history_child(loader, ops):
+    from sktime.datasets import base
+    f = getattr(base, loader)
+    held, ret, params = [], [], []
+    for i, o in enumerate(ops):
+        try:
+            if o["op"] == "load":
+                obj = f(split=o["split"], return_X_y=o["xy"])
+                held.append(obj)
+                ret.append(_dump(obj))
+                params.append(None)
+            else:
+                params.append(_apply_edit(held[o["target"]], o["how"]))
+        except Exception as e:
+            return {"err": "op %d %s: %s: %s" % (i, o, type(e).__name__, str(e)[:160])}
+    try:
+        final = [_dump(obj) for obj in held]
+    except Exception as e:
+        return {"err": "re-reading the caller's objects: %s: %s" % (type(e).__name__, str(e)[:160])}
+    return {"ret": ret, "final": final, "params": params}
+
+
+def _first_call_child(loader, split, xy):
+    from sktime.datasets import base
+    try:
+        return _dump(getattr(base, loader)(split=split, return_X_y=xy))
+    except Exception as e:
+        return {"err": "%s: %s" % (type(e).__name__, str(e)[:160])}
+
+
+def _files_child(loader):
+    from sktime.utils.data_io import load_from_tsfile_to_dataframe
+    name, out = LOADER_NAME[loader], {}
+    for part in ("TRAIN", "TEST"):
+        out[part.lower()] = _dump(load_from_tsfile_to_dataframe(
+            os.path.join(_repo(), DATA, name, "%s_%s.ts" % (name, part))))
+    return out
+
+
+_REF = {}
+
+
+def _key(split, xy):
+    return "%s/%s" % (str(split).lower(), "xy" if xy else "frame")
+
+
+def _run_history_case(case):
+    """the history in one forked process; every distinct call of it (and its sibling form) as the
+    FIRST call of another forked process; the two files parsed directly in a third"""
+    fn = case["loader"]
+    out = forked(_history_child, fn, case["ops"])
+    refs = _REF.setdefault(fn, {})
+    if "files" not in refs:
+        refs["files"] = forked(_files_child, fn)
+    out["files"] = refs["files"]
+    out["ref"] = {}
+    for o in case["ops"]:
+        if o["op"] == "load":
+            for xy in (True, False):
+                k = _key(o["split"], xy)
+                if k not in refs:
+                    refs[k] = forked(_first_call_child, fn, o["split"], xy)
+                out["ref"][k] = refs[k]
+    return out
+
+
+def _run_impl(case):
     import textwrap
     import numpy as np
     import pandas as pd
@@ -712,7 +966,128 @@ def oracle(case, out):
             if fr["y"] != xy["y"]:
                 return "split-single-frame-labels-differ: %s" % key
         return None
+    if k == "history":
+        return _history_oracle(case, out)
     return "unknown-kind"
+
+
+def _summ(d):
+    if d is None or "err" in d:
+        return str(d)
+    return "%s: %d rows, columns %s, labels %s..." % (
+        d["form"], len(d["rows"]), d["columns"], None if d["y"] is None else d["y"][:3])
+
+
+def _first_diff(a, b):
+    """where two canonical results differ (None when they are equal)"""
+    if "err" in a or "err" in b:
+        return None if a == b else "one of them raised"
+    for key in ("form", "columns"):
+        if a[key] != b[key]:
+            return "%s %s vs %s" % (key, a[key], b[key])
+    if len(a["rows"]) != len(b["rows"]):
+        return "%d vs %d instances" % (len(a["rows"]), len(b["rows"]))
+    for i, (x, y) in enumerate(zip(a["rows"], b["rows"])):
+        if x != y:
+            return "instance %d (fingerprints %s vs %s)" % (i, x, y)
+    if a["y"] != b["y"]:
+        if a["y"] is None or b["y"] is None or len(a["y"]) != len(b["y"]):
+            return "labels %s vs %s" % (a["y"] and a["y"][:3], b["y"] and b["y"][:3])
+        i = next(i for i, (x, y) in enumerate(zip(a["y"], b["y"])) if x != y)
+        return "label %d (%r vs %r)" % (i, a["y"][i], b["y"][i])
+    if a["index"] != b["index"]:
+        return "index %s... vs %s..." % (a["index"][:3], b["index"][:3])
+    return None
+
+
+def _edited(d, how, prm, xy):
+    """the canonical result after the caller's edit (mirror of the model's `mutate`)"""
+    d = {"form": d["form"], "columns": list(d["columns"]), "index": list(d["index"]),
+         "rows": [list(r) for r in d["rows"]], "y": None if d["y"] is None else list(d["y"])}
+    if how == "drop_first":
+        d["rows"], d["index"] = d["rows"][1:], d["index"][1:]
+        if not xy and d["y"] is not None:
+            d["y"] = d["y"][1:]
+    elif how == "set_label":
+        if d["y"]:
+            d["y"][0] = prm["label"]
+    elif how in ("set_cell", "edit_cell_inplace"):
+        if d["rows"] and d["rows"][0]:
+            d["rows"][0][0] = prm["cell"]
+    elif how == "add_column":
+        d["rows"] = [r + [prm["cell"]] for r in d["rows"]]
+        d["columns"] = d["columns"] + ["extra"]
+    return d
+
+
+def _pure(files, split, xy):
+    """the pure function of the two files: what load(split, return_X_y) must return"""
+    tr, te = files["train"], files["test"]
+    parts = [tr, te] if split is None else [tr if split == "train" else te]
+    rows = [r for p in parts for r in p["rows"]]
+    y = [v for p in parts for v in p["y"]]
+    cols = list(tr["columns"])
+    return {"form": "xy" if xy else "frame", "columns": cols if xy else cols + ["class_val"],
+            "rows": rows, "y": y, "index": [i for p in parts for i in p["index"]]}
+
+
+def _call_text(case, o):
+    return "%s(split=%r, return_X_y=%s)" % (case["loader"], o["split"], o["xy"])
+
+
+def _history_oracle(case, out):
+    ops = case["ops"]
+    loads = [o for o in ops if o["op"] == "load"]
+    if any("err" in r for r in out["ref"].values()):
+        bad = sorted(k for k, r in out["ref"].items() if "err" in r)[0]
+        return "split-loader-raised: first call %s: %s" % (bad, out["ref"][bad]["err"])
+    # the first-call references are the pure function of the two files, consistently in both forms
+    for o in loads:
+        for xy in (True, False):
+            ref = out["ref"][_key(o["split"], xy)]
+            d = _first_diff(ref, _pure(out["files"], o["split"], xy))
+            if d:
+                return "loader-result-is-not-the-pure-function-of-the-files: %s as a first call " \
+                       "vs train-then-test of the parsed files: %s" % (
+                           _call_text(case, dict(o, xy=xy)), d)
+        a, b = out["ref"][_key(o["split"], True)], out["ref"][_key(o["split"], False)]
+        if a["index"] != b["index"] or b["columns"] != a["columns"] + ["class_val"] \
+                or a["rows"] != b["rows"] or a["y"] != b["y"]:
+            return "split-forms-inconsistent: split=%r (X, y) form %s vs single frame %s" % (
+                o["split"], _summ(a), _summ(b))
+    if "err" in out:
+        return "loader-result-depends-on-history: a call that works as a first call raised " \
+               "inside the history: %s" % out["err"]
+    # every call of the history returns what the same call returns as the first call of a process
+    k = 0
+    for i, o in enumerate(ops):
+        if o["op"] != "load":
+            continue
+        d = _first_diff(out["ret"][k], out["ref"][_key(o["split"], o["xy"])])
+        if d:
+            before = "; ".join(_call_text(case, p) if p["op"] == "load" else
+                               "caller: %s on result #%d" % (p["how"], p["target"]) for p in ops[:i])
+            return "loader-result-depends-on-history: call #%d %s after [%s] returned %s; as a " \
+                   "first call it returns %s; they differ in %s" % (
+                       k, _call_text(case, o), before, _summ(out["ret"][k]),
+                       _summ(out["ref"][_key(o["split"], o["xy"])]), d)
+        k += 1
+    # the caller's objects at the end: the returned value with the caller's own edits, nothing else
+    for k, o in enumerate(loads):
+        want, touched = out["ret"][k], False
+        for p, prm in zip(ops, out["params"]):
+            if p["op"] == "mutate" and p["target"] == k:
+                want, touched = _edited(want, p["how"], prm, o["xy"]), True
+        d = _first_diff(out["final"][k], want)
+        if d:
+            if not touched:
+                return "loader-result-changed-behind-the-caller: result #%d of %s was never " \
+                       "edited by the caller but is different at the end of the history: %s" % (
+                           k, _call_text(case, o), d)
+            return "caller-edit-not-local: result #%d of %s after the caller's own edits " \
+                   "differs from the returned value with those edits applied: %s" % (
+                       k, _call_text(case, o), d)
+    return None
 
 
 def nontrivial(case, out):
@@ -726,7 +1101,38 @@ def nontrivial(case, out):
     return True
 
 
+def _shrink_history(case):
+    ops = case["ops"]
+    nload = sum(1 for o in ops if o["op"] == "load")
+    for i, o in enumerate(ops):
+        if o["op"] == "load" and nload <= 1:
+            continue
+        rest = []
+        k = sum(1 for p in ops[:i] if p["op"] == "load")       # number of the removed load
+        for j, p in enumerate(ops):
+            if j == i:
+                continue
+            if p["op"] == "mutate" and o["op"] == "load":
+                if p["target"] == k:
+                    continue
+                p = dict(p, target=p["target"] - 1) if p["target"] > k else p
+            rest.append(p)
+        # an edit must come after the load it targets
+        seen, ok = 0, True
+        for p in rest:
+            if p["op"] == "load":
+                seen += 1
+            elif p["target"] >= seen:
+                ok = False
+        if ok and rest != ops:
+            yield dict(case, ops=rest)
+
+
 def shrink(case):
+    if case["kind"] == "history":
+        for c in _shrink_history(case):
+            yield c
+        return
     if case["kind"] != "roundtrip":
         return
     c = dict(case)
@@ -864,7 +1270,68 @@ def coq_case(case, out):
             xy(sel(out["file_train"], ptr)), xy(sel(out["file_test"], pte)),
             xy(sel(out["xy_none"], pno)), xy(sel(out["xy_train"], ptr)),
             xy(sel(out["xy_test"], pte)), fr(sel(out["fr_none"], pno)))
+    if k == "history":
+        return _coq_history(case, out)
     return None
+
+
+def _hpos(n):
+    return list(range(n)) if n <= 2 * HIST_K else (
+        list(range(HIST_K)) + list(range(n - HIST_K, n)))
+
+
+def _c_row(fps):
+    return clist(["[%s]" % _s(fp) for fp in fps])
+
+
+def _c_loaded(d, xpos, ypos):
+    """a canonical result as a `loaded` term, excerpted at the given positions"""
+    rows = [d["rows"][i] for i in xpos if 0 <= i < len(d["rows"])]
+    ys = d["y"] or []
+    if d["form"] == "xy":
+        labs = [ys[i] for i in ypos if 0 <= i < len(ys)]
+        return "(LXy %s %s)" % (clist([_c_row(r) for r in rows]), _sl(labs))
+    pairs = [(d["rows"][i], ys[i]) for i in xpos if 0 <= i < len(d["rows"]) and i < len(ys)]
+    return "(LFrame %s)" % clist(["(%s, %s)" % (_c_row(r), _s(y)) for r, y in pairs])
+
+
+def _coq_history(case, out):
+    if "err" in out or "files" not in out:
+        return None
+    tr, te = out["files"]["train"], out["files"]["test"]
+    if tr["y"] is None or te["y"] is None:
+        return None
+    ntr, nte = len(tr["rows"]), len(te["rows"])
+    ptr, pte = _hpos(ntr), _hpos(nte)
+    pos = {None: ptr + [ntr + i for i in pte], "train": ptr, "test": pte}
+
+    def filexy(d, idx):
+        return "(%s, %s)" % (clist([_c_row(d["rows"][i]) for i in idx]), _sl([d["y"][i] for i in idx]))
+    ops, terms, ret, fin = case["ops"], [], [], []
+    loads = [o for o in ops if o["op"] == "load"]
+    for o, prm in zip(ops, out["params"]):
+        if o["op"] == "load":
+            terms.append("(HLoad (%s, %s))" % (
+                {None: "None", "train": "(Some Train)", "test": "(Some Test)"}[o["split"]],
+                "FormXy" if o["xy"] else "FormFrame"))
+            continue
+        how = o["how"]
+        m = {"drop_first": "MDropFirst",
+             "set_label": "(MSetLabel %s)" % _s((prm or {}).get("label", "")),
+             "set_cell": "(MSetCell [%s])" % _s((prm or {}).get("cell", "")),
+             "edit_cell_inplace": "(MSetCell [%s])" % _s((prm or {}).get("cell", "")),
+             "add_column": "(MAddColumn [%s])" % _s((prm or {}).get("cell", ""))}[how]
+        terms.append("(HMutate %d %s)" % (o["target"], m))
+    for k, o in enumerate(loads):
+        p = pos[o["split"]]
+        ret.append(_c_loaded(out["ret"][k], p, p))
+        # rows the caller dropped from the front shift the positions of what is left
+        drops = sum(1 for q in ops if q["op"] == "mutate" and q["target"] == k
+                    and q["how"] == "drop_first")
+        xp = [i - drops for i in p if i >= drops]
+        fin.append(_c_loaded(out["final"][k], xp, p if o["xy"] else xp))
+    return "CHistory %s %s %s %s %s" % (filexy(tr, ptr), filexy(te, pte), clist(terms),
+                                        clist(ret), clist(fin))
 
 
 def coq_model_term(case):
@@ -879,6 +1346,13 @@ def coq_model_term(case):
         # the model needs the printed tokens, which only the driver can produce: show the header
         o = {"wrapped": []}
         return "render_header %s writer_header" % _wopts(case, o)
+    if k == "history":
+        # the model on a two-instance stand-in for the files: what every call must return
+        calls = clist(["(%s, %s)" % ({None: "None", "train": "(Some Train)", "test": "(Some Test)"}[
+            o["split"]], "FormXy" if o["xy"] else "FormFrame") for o in case["ops"]
+            if o["op"] == "load"])
+        return ("map (pure_load (Ok ([[[L \"train0\"]]; [[L \"train1\"]]], Some [L \"a\"; L \"b\"])) "
+                "(Ok ([[[L \"test0\"]]], Some [L \"c\"]))) %s" % calls)
     return "parser_tags"
 
 
@@ -898,6 +1372,14 @@ def distribution(cases, results):
             d["roundtrip:%s" % ("loaded" if o.get("loaded") else "not-loaded")] += 1
         elif k in ("ts_lines", "arff_lines", "tsv_lines", "file"):
             d["%s:%s" % (k, "accepted" if o.get("loaded") else "rejected")] += 1
+        elif k == "history":
+            loads = [p for p in c["ops"] if p["op"] == "load"]
+            d["history:calls=%d" % len(loads)] += 1
+            d["history:mixes-return-forms=%s" % (len(set(p["xy"] for p in loads)) > 1)] += 1
+            d["history:mixes-splits=%s" % (len(set(p["split"] for p in loads)) > 1)] += 1
+            for p in c["ops"]:
+                if p["op"] == "mutate":
+                    d["history:caller-edit=%s" % p["how"]] += 1
         else:
             d[k] += 1
     return dict(d)
@@ -910,4 +1392,5 @@ def extra_coverage(cases, results, tier):
                                 "formats: %s; loaders: %s" % (
                                     len(files), DATA,
                                     [c["dataset"] for c in cases if c["kind"] == "formats"],
-                                    [c["loader"] for c in cases if c["kind"] == "split"])}
+                                    [c["loader"] for c in cases if c["kind"] == "split"]) +
+            "; call histories: %d" % sum(1 for c in cases if c["kind"] == "history")}
